@@ -23,7 +23,7 @@ LEVEL = "exploration"
 RULE = (
     "Hypothesis draws a configuration (cache none / SimpleCache / MemoryFullCache shared or not / HDF5Cache on a fresh file, "
     "root or nested node; tolerance 0, 1e-9 or 1e-3; JSON or Simple grammar; 2-3 inputs with defaults, optional self-coupled "
-    "variable; dense or sparse Jacobian filled in a new dict or through _init_jacobian, all blocks or only the requested ones; "
+    "variable whose body returns a new array or updates the received array in place; dense or sparse Jacobian filled in a new dict or through _init_jacobian, all blocks or only the requested ones; "
     "real or deliberately colliding (2-bucket) input hash) and a history of 3-14 operations: execute / linearize "
     "(compute_all or differentiated subset, execute=True/False) at a point of a pool of 2-4 grid points (or at the point of the previous call), optionally perturbed "
     "by less than the tolerance, optionally omitting defaulted inputs, passed as fresh arrays or as the caller's persistent "
@@ -40,8 +40,13 @@ ASSUMPTIONS = [
     "inputs are float64 arrays of the declared sizes on a 0.25 grid (no NaN, no -0.0: keys are byte-hashed) plus perturbations "
     "of a[0]; points of different grid classes are >= 0.24 apart, points of one class are < tolerance/2 apart, so 'within t' is "
     "unambiguous for both the documented metric (norm of the cached array) and the implemented one (norm of the new array)",
-    "linearize(execute=False) is only generated right after a call at the same completed input on the same discipline object "
-    "(its documented precondition); linearize without compute_all_jacobians only with non-empty differentiated inputs and outputs",
+    "linearize(execute=False) is generated right after a call at the same completed input and also at any other input once the "
+    "discipline object holds output values (JobSchedulerDisciplineWrapper.linearize calls Discipline.linearize(execute=False) at "
+    "new inputs, SimpleCache.cache_jacobian has a branch for it, and the harness Jacobian only needs the inputs); linearize "
+    "without compute_all_jacobians only with non-empty differentiated inputs and outputs",
+    "a body that updates the self-coupled array in place modifies the caller's array with or without a cache (gemseo hands the "
+    "caller's array to the body): that array is exempt from the caller_arrays comparison, such a discipline always receives y "
+    "explicitly (the body would corrupt the default array) and is only executed, not linearised (its input is destroyed)",
     "the caller never modifies arrays returned by the discipline, only arrays it passed in; defaults are rebound, not mutated",
     "cache.clear() is only applied to a non-empty cache (clear() of an empty HDF5Cache raises KeyError: outside the statement) "
     "and starts a new epoch for the run counter",
@@ -71,6 +76,7 @@ CACHE_TYPES = {
 }
 FULL = ("memory_shared", "memory", "hdf5")
 P6 = "memory_full_unshared_inplace_mutation"
+F3 = "stale_jacobian_of_cache_hit_at_linearize_execute_false"
 
 
 # --------------------------------------------------------------------------- generators
@@ -84,6 +90,7 @@ def _op(n_reopen=1):
         "held": st.booleans(),
         "all": st.booleans(),
         "exe": st.booleans(),
+        "free": st.booleans(),  # execute=False also allowed at an input other than the one of the previous call
         "ins": st.integers(0, 14),
         "outs": st.integers(0, 2),
         "var": st.integers(0, 2),
@@ -115,6 +122,7 @@ def histories(caches, n_reopen=1):
         "scalar_out": st.booleans(),      # a float-typed (non-array) output
         "a_default": st.booleans(),       # every input has a default: execute({}) is reachable
         "rev_defaults": st.booleans(),    # defaults inserted in the reverse of the grammar order
+        "inplace_body": st.booleans(),    # the body of a self-coupled discipline updates the received array of y in place
     })
     return st.fixed_dictionaries({
         "cfg": cfg,
@@ -132,6 +140,11 @@ def in_specs(cfg):
     if cfg["self_coupled"]:
         specs.append(("y", 2, True))
     return specs
+
+
+def inplace_body(cfg) -> bool:
+    """Whether the body updates the self-coupled input array in place (and returns that same array)."""
+    return bool(cfg.get("inplace_body")) and bool(cfg["self_coupled"])
 
 
 _Z2 = np.zeros(2)
@@ -211,7 +224,12 @@ def harness_class(grammar: str):
         def _run(self, input_data):
             inp = {n: input_data[n] for n in self.in_names}
             self.log.append(key_of(inp))
-            return body(inp)
+            out = body(inp)
+            if inplace_body(self.cfg):
+                y = input_data["y"]  # the very array received as input
+                y[...] = out["y"]
+                out["y"] = y
+            return out
 
         def _compute_jacobian(self, input_names=(), output_names=()):
             self.n_jac += 1
@@ -264,6 +282,7 @@ def plan(p):
     tol = TOLS[cfg["tol"]]
     delta = tol / 8.0 if tol else 2.0**-20
     pool = p["pool"]
+    inplace_y = inplace_body(cfg)
     held = {}  # name -> current content of the caller's persistent array (None until first use)
     held_passed = set()
     inplace = False
@@ -275,8 +294,8 @@ def plan(p):
             base = pool[op["base"] % len(pool)]
             passed = {}
             for n, size, has_default in specs:
-                if has_default and not (op["mask"] >> defaulted.index(n)) & 1:
-                    continue
+                if has_default and not (op["mask"] >> defaulted.index(n)) & 1 and not (inplace_y and n == "y"):
+                    continue  # (an in-place updating body always receives y explicitly: it would corrupt the default array)
                 vals = [k * GRID + 0.0 for k in base[n]]
                 if n == "a":
                     vals[0] = vals[0] + op["pert"] * delta
@@ -292,10 +311,13 @@ def plan(p):
                     held[n] = vals
                     held_passed.add(n)
             inplace = inplace or modifies
+            if inplace_y:
+                kind = "exec"  # the body destroys its input y: the linearisation point would be undefined
             step = {"kind": kind, "passed": passed, "held": op["held"], "modifies": modifies, "partial": len(passed) < len(names)}
             if kind == "lin":
                 step["all"] = op["all"]
                 step["exe"] = op["exe"]
+                step["free"] = bool(op.get("free"))
             steps.append(step)
         elif kind == "diff":
             steps.append({"kind": "diff", "ins": _subset(names, op["ins"]), "outs": _subset([n for n, _ in OUT_SPECS], op["outs"])})
@@ -380,6 +402,8 @@ class Machine:
         self.seen_class = {}  # class key -> list of keys
         self.diff_ins, self.diff_outs = [], []
         self.last_key = None  # completed input of the previous call on the current discipline object
+        self.has_outputs = False  # the current discipline object holds output values in its local data
+        self.inplace_y = inplace_body(cfg)
         self.flags = Counter()
         cls = harness_class(cfg["grammar"])
         self.cls = cls
@@ -465,12 +489,22 @@ class Machine:
         requested = None
         if lin:
             compute_all = step["all"] or not self.diff_ins
-            execute = step["exe"] or self.last_key != kx
-            if not execute and getattr(self, "cleared_since_call", False) and self.tol > 0.0 and self.kind in FULL:
-                # linearize(execute=False) right after cache.clear() stores a Jacobian-only entry; with a tolerance that
-                # entry then shadows every later complete entry within the tolerance (known finding C05-F2)
-                self.flags["jacobian_only_entry_after_clear_with_tolerance"] += 1
+            same_point = self.last_key == kx
+            execute = step["exe"] or not (same_point or (step.get("free") and self.has_outputs))
+            if not execute and not same_point:
+                self.flags["linearize_execute_false_at_another_input"] += 1
+            if not execute and self.tol > 0.0 and self.kind in FULL and kx not in self.log:
+                # linearize(execute=False) at an input whose outputs are not cached (new input, or after cache.clear())
+                # stores a Jacobian-only entry; with a tolerance that entry then shadows every later complete entry
+                # within the tolerance (known finding C05-F2)
+                self.flags["jacobian_only_entry_with_tolerance"] += 1
                 if ctx.known("jacobian_only_entry_shadows_with_tolerance"):
+                    execute = True
+            if (not execute and not same_point and self.kind != "none"
+                    and getattr(self.disc, "_has_jacobian", False) and self.disc.jac):
+                # the Jacobian loaded from the cache for the previous input is still flagged valid (known finding C05-F3)
+                self.flags["linearize_execute_false_with_jacobian_of_previous_cache_hit"] += 1
+                if ctx.known(F3):
                     execute = True
             if compute_all:
                 req_in, req_out = list(self.names), [n for n, _ in OUT_SPECS]
@@ -498,6 +532,8 @@ class Machine:
             twin_got = {n: np.array(v) for n, v in tres.items()}
         # ---- caller arrays are never modified by the call
         for n, v in args.items():
+            if n == "y" and self.inplace_y:
+                continue  # updated by the body itself, with or without a cache
             ctx.check(same(v, before[n]), "caller_arrays", f"the call modified the caller's array {n}: {before[n]!r} -> {v!r}", step=step)
         # ---- twin against the reference (also the 'no cache' policy)
         ref_out = body(x)
@@ -559,7 +595,8 @@ class Machine:
             self.flags["linearize"] += 1
         self.remember(x)
         self.last_key = kx
-        self.cleared_since_call = False
+        if not lin or execute:
+            self.has_outputs = True
 
     def diff(self, step):
         self.diff_ins = sorted(set(self.diff_ins) | set(step["ins"]))
@@ -583,7 +620,6 @@ class Machine:
         self.ctx.check(len(cache) == 0, "clear", f"len(cache)={len(cache)} after clear()")
         del self.log[:]
         self.flags["clear"] += 1
-        self.cleared_since_call = True
 
     def reopen(self, step):
         if self.kind != "hdf5":
@@ -603,6 +639,7 @@ class Machine:
         diff = entries_equal(before, after)
         ctx.check(not diff, "reopen", "entries differ after re-instantiation on the same file/node: " + diff)
         self.last_key = None
+        self.has_outputs = False
         self.flags["reopen_nonempty" if n_before else "reopen_empty"] += 1
 
     def sweep(self):
@@ -622,6 +659,8 @@ class Machine:
                 continue
             passed = {n: np.asarray(inputs[n], dtype=float).tolist() for n in self.names}
             self.call({"kind": "exec", "passed": passed, "held": False, "modifies": False, "partial": False, "sweep": True})
+            if self.inplace_y:
+                continue
             # ... and linearised: a Jacobian stored in the wrong entry shows up here
             self.call({"kind": "lin", "passed": passed, "held": False, "modifies": False, "partial": False, "sweep": True,
                        "all": True, "exe": True})
@@ -692,6 +731,8 @@ def case_transparency(p, ctx):
             ctx.cls("history_with_fully_defaulted_call")
         if cfg.get("rev_defaults"):
             ctx.cls("defaults_in_reverse_grammar_order")
+        if m.inplace_y:
+            ctx.cls("body_updates_self_coupled_input_in_place")
         if cfg["weak_hash"] and cfg["cache"] in FULL:
             ctx.cls("colliding_hash")
         inplace_done = f["inplace_modified_caller_array"] > 0
